@@ -98,6 +98,8 @@ UNARY = {2: ["x", "y", "rho", "rho2", "phi", "unit"],
          3: ["x", "y", "rho", "rho2", "phi", "z", "theta", "eta", "costheta", "cottheta", "mag", "mag2", "unit"],
          4: ["x", "y", "rho", "rho2", "phi", "z", "theta", "eta", "costheta", "cottheta", "mag", "mag2", "t", "t2", "tau",
              "tau2", "beta", "gamma", "rapidity", "unit", "to_beta3", "neg3D", "neg2D", "neg4D"]}
+SPACELIKE_UNARY = ["unit", "tau", "tau2", "t", "t2", "beta", "mag", "z", "eta", "theta", "to_beta3", "neg4D", "Et", "Et2", "Mt2", "mass",
+                   "is_timelike", "is_spacelike", "is_lightlike"]
 MOM4 = ["Et", "Et2", "Mt", "Mt2", "pt", "mass", "energy", "pseudorapidity"]
 UNARY_ARGS = {2: [("rotateZ", ["0.7"]), ("scale", ["-1.3"]), ("scale", ["2.5"])],
               3: [("rotateZ", ["0.7"]), ("rotateX", ["-1.1"]), ("rotateY", ["2.9"]), ("scale", ["-1.3"]), ("scale", ["0.4"]),
@@ -182,6 +184,29 @@ def search_c01(seed, tier, only_modules=None, limit=5):
                     for m, kw in BOOSTS:
                         n += 1
                         run(c01_unary, {"m": m, "sig": list(sig), "p": p, "kw": kw}, out, limit)
+        if dim == 4:
+            # spacelike (and lightlike-side) vectors with t >= 0: representable in every t-stored system (not with tau >= 0)
+            sp = []
+            for q in points(3, r, 1)[: (3 if tier == "quick" else 8)]:
+                mag = sum(float(x) ** 2 for x in q) ** 0.5
+                sp.append(q + [repr(mag * r.uniform(0.2, 0.8))])
+            for sig in C.SIGS[4]:
+                if sig[-1] != "t":
+                    continue
+                for p in sp:
+                    for m in SPACELIKE_UNARY:
+                        n += 1
+                        run(c01_unary, {"m": m, "sig": list(sig), "p": p, "fl": "m" if m in MOM4 else "g"}, out, limit)
+                    for m, args in (("scale", ["-1.3"]), ("rotateY", ["2.9"]), ("rotate_quaternion", ["0.5", "0.1", "-0.7", "0.5"])):
+                        n += 1
+                        run(c01_unary, {"m": m, "sig": list(sig), "p": p, "args": args}, out, limit)
+                    for m, kw in BOOSTS[:3]:
+                        n += 1
+                        run(c01_unary, {"m": m, "sig": list(sig), "p": p, "kw": kw}, out, limit)
+                    s2 = r.choice(C.SIGS[4])
+                    for m in ("add", "dot", "boost_p4", "deltaR"):
+                        n += 1
+                        run(c01_binary, {"m": m, "s1": list(sig), "s2": list(s2), "p1": p, "p2": pts[0]}, out, limit)
         pairs = list(itertools.product(C.SIGS[dim], repeat=2))
         if tier == "quick" and dim == 4:
             pairs = r.sample(pairs, 40)
@@ -639,9 +664,29 @@ def c11_laws(a):
     assert all(close(x * n0, y, sc) for x, y in zip(cu, cp)), "unit() is not parallel to the original"
 
 
+@check
+def c11_unit_any(a):
+    """unit() is a POSITIVE multiple of the original with |norm| one, also for spacelike 4D vectors (norm = sqrt|tau2|)"""
+    fam, mp = ctx()
+    u = vec(a["sig"], a["p"])
+    d = len(a["p"])
+    n2 = getattr(u, {2: "rho2", 3: "mag2", 4: "tau2"}[d])
+    n0 = mp.sqrt(abs(n2))
+    un = u.unit()
+    sc = 10 * max(abs(x) for x in M(mp, a["p"]))
+    assert all(close(x * n0, y, sc) for x, y in zip(C.cart(un), C.cart(u))), \
+        f"unit() of {a['p']} stored as {a['sig']} is not the original divided by its (absolute) norm: {[str(x)[:12] for x in C.cart(un)]}"
+
+
 def search_c11(seed, tier, limit=5):
     r = C.rng(seed, "c11")
     out, n = [], 0
+    for q in points(3, r, 1)[: (3 if tier == "quick" else 8)]:
+        mag = sum(float(x) ** 2 for x in q) ** 0.5
+        for sig in C.SIGS[4]:
+            if sig[-1] == "t":
+                n += 1
+                run(c11_unit_any, {"sig": list(sig), "p": q + [repr(mag * r.uniform(0.2, 0.8))]}, out, limit)
     for dim in (2, 3, 4):
         pts = points(dim, r, 3)
         for s1 in C.SIGS[dim]:
